@@ -509,6 +509,14 @@ static void value_families(void)
                 carrier_dbl(u);
             }
     }
+    /* decimal boundaries: +-(10^k + d), k = 0..18, |d| <= 1 (digit-count rules live here, far from the binary boundaries) */
+    {
+        int64_t p10 = 1;
+        for (int k = 0; k <= 18; p10 = k < 18 ? p10 * 10 : p10, k++) {
+            if (!take()) continue;
+            for (int d = -1; d <= 1; d++) { carrier_int(p10 + d); carrier_int(-(p10 + d)); }
+        }
+    }
     /* neighbourhoods of every width boundary: all values within R of +-2^k, k = 7..63 */
     int64_t R = vf_g.thorough ? 65536 : 2048;
     for (int k = 7; k < 64; k++)
